@@ -169,14 +169,19 @@ CacgDomain(r) ==
   LET U == DField(r, "cacg_eigenvectors").t lam == DField(r, "cacg_eigenvalues").t
       rows == LastAxisRows(lam)
   IN << <<"cacg_unitary", \A i \in 1..Len(LastMats(U)) : Unitary(LastMats(U)[i])>>,
-        <<"cacg_eigenvalue_range", \A i \in 1..Len(rows) :
-             CASE r.norm = "eigenvalue" -> /\ FMaxSeq(rows[i]) = FOne
-                                           /\ \A j \in 1..Len(rows[i]) : FLe(r.floor, rows[i][j]) /\ FLe(rows[i][j], FOne)
-               [] r.norm = "trace" -> /\ \A j \in 1..Len(rows[i]) : FSgn(rows[i][j]) > 0 \/ r.floor = FZero
-                                      /\ FLe(FSum(rows[i]), FAdd(FOne, FAdd(FNorm(64, -19), FMul(FInt(Len(rows[i])), r.floor))))
-                                      /\ FLe(FSub(FOne, FNorm(64, -19)), FSum(rows[i]))
+        \* 'eigenvalue' norm: every eigenvalue in [floor, 1] and the maximum exactly 1; 'trace': positive, unit trace up to
+        \* flooring; none: relative floor.  (separate clauses: a finding on one of them must not hide the others)
+        <<"cacg_eigenvalue_floor", \A i \in 1..Len(rows) :
+             CASE r.norm = "eigenvalue" -> \A j \in 1..Len(rows[i]) : FLe(r.floor, rows[i][j])
+               [] r.norm = "trace" -> \A j \in 1..Len(rows[i]) : FLe(FMul(FMul(r.floor, FMaxSeq(rows[i])), FSub(FOne, FNorm(64, -19))), rows[i][j])
                \* relative floor; the product is formed in Flt, hence the (1 - 64 2^-19) factor
-               [] OTHER -> \A j \in 1..Len(rows[i]) : FLe(FMul(FMul(r.floor, FMaxSeq(rows[i])), FSub(FOne, FNorm(64, -19))), rows[i][j])>> >>
+               [] OTHER -> \A j \in 1..Len(rows[i]) : FLe(FMul(FMul(r.floor, FMaxSeq(rows[i])), FSub(FOne, FNorm(64, -19))), rows[i][j])>>,
+        <<"cacg_eigenvalue_le_one", r.norm = "eigenvalue" => \A i \in 1..Len(rows) : \A j \in 1..Len(rows[i]) : FLe(rows[i][j], FOne)>>,
+        <<"cacg_eigenvalue_max_is_one", r.norm = "eigenvalue" => \A i \in 1..Len(rows) : FMaxSeq(rows[i]) = FOne>>,
+        <<"cacg_positive_definite", \A i \in 1..Len(rows) : \A j \in 1..Len(rows[i]) : FSgn(rows[i][j]) > 0 \/ r.floor = FZero>>,
+        <<"cacg_unit_trace", r.norm = "trace" => \A i \in 1..Len(rows) :
+             /\ FLe(FSum(rows[i]), FAdd(FOne, FAdd(FNorm(64, -19), FMul(FInt(Len(rows[i])), r.floor))))
+             /\ FLe(FSub(FOne, FNorm(64, -19)), FSum(rows[i]))>> >>
 WatsonDomain(r) ==
   LET m == LastAxisRows(DField(r, "watson_mode").t) c == DField(r, "watson_concentration").t.data
   IN << <<"watson_unit_mode", \A i \in 1..Len(m) : CloseRel(Norm2(m[i]), FOne, 64)>>,
@@ -200,9 +205,9 @@ GaussDomain(r) ==
                           IN  Close(FSum(terms), S[i][a][b], FAdd(FSumAbs(terms), FAbs(S[i][a][b])), 64)>> >>
 BinghamDomain(r) ==
   LET rows == LastAxisRows(DField(r, "bingham_eigenvalues").t)
-  IN << <<"bingham_eigenvalue_range", \A i \in 1..Len(rows) :
-             /\ FMaxSeq(rows[i]) = FZero
-             /\ \A j \in 1..Len(rows[i]) : FLe(rows[i][j], FZero) /\ FLe(FNeg(r.kmax), rows[i][j])>> >>
+  IN << <<"bingham_max_is_zero", \A i \in 1..Len(rows) : FMaxSeq(rows[i]) = FZero>>,
+        <<"bingham_nonpositive", \A i \in 1..Len(rows) : \A j \in 1..Len(rows[i]) : FLe(rows[i][j], FZero)>>,
+        <<"bingham_ge_minus_max_concentration", \A i \in 1..Len(rows) : \A j \in 1..Len(rows[i]) : FLe(FNeg(r.kmax), rows[i][j])>> >>
 DomainChecks(r) ==
   IF r.exc # "" THEN << <<"raises", r.exc_explicit>> >>
   ELSE IF ~(\A i \in 1..Len(r.fields) : FieldFinite(r.fields[i])) THEN << <<"finite", FALSE>> >>
